@@ -214,6 +214,7 @@ theorem sprintName_present (ls : List Bytes) : sprintName (presentOf ls) = prese
 /-- the same kind of field; for integers the parser must accept the whole range of the field the printer prints -/
 def kindEq : TStep → TStep → Bool
   | .uint a, .uint b => a == b
+  | .uint a, .uintAlg => a == 8
   | .name, .name => true
   | _, _ => false
 
@@ -222,6 +223,7 @@ def kindEq : TStep → TStep → Bool
 def matchPlans : List TStep → List TStep → Bool
   | [.txt], [.txt] => true
   | [.endStr _], [.endStr _] => true
+  | [.endStr _], [.tok, .slurp] => true
   | [p], [q, .slurp] => kindEq p q
   | [p, .blank, .endStr _], [q, .endStr _] => kindEq p q
   | p :: .blank :: P, q :: .blank :: Q => kindEq p q && matchPlans P Q
@@ -230,6 +232,7 @@ def matchPlans : List TStep → List TStep → Bool
 /-- a field value that can come from the wire -/
 def FieldWF : TStep → TVal → Prop
   | .uint bits, .n v => v < 2 ^ bits
+  | .uintAlg, .n v => v < 2 ^ 8
   | .name, .s t => ∃ ls, WireNameOK ls ∧ t = presentOf ls
   | _, _ => False
 
@@ -272,6 +275,13 @@ theorem field_word (p q : TStep) (v : TVal) (hk : kindEq p q = true) (hw : Field
     intro t ts Q acc ht he
     simp only [parsePlan, headTok, ht, parseUintN_digits bits (itoa n) hd (by rw [hv]; exact hw), hv, he, Bool.false_eq_true,
       ↓reduceIte, List.tail_cons]
+  case uint.uintAlg b1 =>
+    cases v <;> simp only [FieldWF] at hw
+    rename_i n
+    obtain ⟨hd, hv⟩ := itoa_spec n
+    refine ⟨itoa n, fun vs => rfl, digits_word _ hd, ?_⟩
+    intro t ts Q acc ht he
+    simp only [parsePlan, headTok, ht, parseUintN_digits 8 (itoa n) hd (by rw [hv]; exact hw), hv, List.tail_cons]
   case name.name =>
     cases v <;> simp only [FieldWF] at hw
     obtain ⟨ls, hok, rfl⟩ := hw
@@ -285,6 +295,7 @@ inductive Fits : List TStep → List TStep → List TVal → List TVal → Prop
   | txt (bss : List Bytes) (h : ∀ bs ∈ bss, bs.length ≤ 255) :
       Fits [.txt] [.txt] [.ss (bss.map txtEscape)] [.ss (bss.map txtEscape)]
   | rest (u u' : Bool) (t : Bytes) (h : RestWF t) : Fits [.endStr u] [.endStr u'] [.s t] [.s (normRest u t)]
+  | tok (u : Bool) (t : Bytes) (h : RestWF t) : Fits [.endStr u] [.tok, .slurp] [.s t] [.s (normRest u t)]
   | last (p q : TStep) (v : TVal) (hk : kindEq p q = true) (hw : FieldWF q v) : Fits [p] [q, .slurp] [v] [v]
   | lastRest (p q : TStep) (v : TVal) (u u' : Bool) (t : Bytes) (hk : kindEq p q = true) (hw : FieldWF q v) (ht : RestWF t) :
       Fits [p, .blank, .endStr u] [q, .endStr u'] [v, .s t] [v, .s (normRest u t)]
@@ -332,6 +343,12 @@ theorem text_roundtrip (P Q : List TStep) (vals vals' : List TVal) (hf : Fits P 
     refine ⟨normRest u t, by simp [printPlan, printStep, normRest], ?_⟩
     rw [hs]
     simp [parsePlan, endingToString, htv, hte, hbv, htk, zNewline, zString, zBlank]
+  | tok u t h =>
+    have hw := normRest_word u t h
+    obtain ⟨tk, b, zl', hs, htk, hte, htv, hbv, hbe⟩ := rdata_last_tokens zl (normRest u t) rest hL hw
+    refine ⟨normRest u t, by simp [printPlan, printStep, normRest], ?_⟩
+    rw [hs]
+    simp [parsePlan, headTok, slurpRemainder, hte, hbv, htk, zNewline, zBlank]
   | last p q v hk hw =>
     obtain ⟨w, hp, hword, hq⟩ := field_word p q v hk hw origin
     obtain ⟨tk, b, zl', hs, htk, hte, htv, hbv, hbe⟩ := rdata_last_tokens zl w rest hL hword
